@@ -254,6 +254,11 @@ PREFIXES = {
     'selected_ro': ['login_ok', 'examine_inbox'],
 }
 TAIL = ['list', 'check']
+# alphabet of the exhaustive length-3 sweep (thorough tier)
+CORE3 = ['capability', 'noop', 'logout', 'unknown', 'login_ok', 'login_bad', 'auth_plain_ok',
+         'auth_plain_cancel', 'starttls', 'select_inbox', 'select_missing', 'examine_inbox',
+         'create', 'delete_sent', 'list', 'append', 'check', 'close', 'fetch', 'store',
+         'idle_done']
 
 
 # -------------------------------------------------- RFC 3501 state table (monitor)
@@ -440,7 +445,7 @@ def header_with_symbols(prop: str = 'C05') -> str:
     from .. import coqrun
     defs = [f'Definition sym_{s.key} : cmd := {s.model}.' for s in ALPHABET]
     text = HEADER + '\n'.join(defs) + '\n' + INTERN.header()
-    d = os.path.join(coqrun.WORK, 'cases', prop)
+    d = coqrun.case_dir(prop)
     os.makedirs(d, exist_ok=True)
     mod = f'{prop}hdr{os.getpid()}'
     for old in os.listdir(d):      # leftovers of earlier runs
@@ -612,9 +617,9 @@ def gen_sequences(ctx) -> list[tuple[str, list[str]]]:
             for a in full:
                 for b in full:
                     seqs.append(('plain', pre + [a, b] + TAIL))
-            for a in core:
-                for b in core:
-                    for c in core:
+            for a in CORE3:
+                for b in CORE3:
+                    for c in CORE3:
                         seqs.append(('plain', pre + [a, b, c] + TAIL[:1]))
     # 3. random sequences up to length 30, every configuration
     valid_by_state = {
@@ -622,7 +627,7 @@ def gen_sequences(ctx) -> list[tuple[str, list[str]]]:
         AUTH: [s.key for s in ALPHABET if s.valid and s.name and AUTH in RFC_TABLE[s.name]],
         SEL: [s.key for s in ALPHABET if s.valid and s.name and SEL in RFC_TABLE[s.name]],
     }
-    for _ in range(ctx.scale(1200, 30000)):
+    for _ in range(ctx.scale(800, 20000)):
         variant = rng.choice(['plain', 'plain', 'nolimit', 'remote_tls', 'local_tls'])
         n = rng.randint(3, 30)
         keys = []
@@ -767,7 +772,7 @@ def check_alphabet_complete(ctx, table) -> None:
 def run(ctx) -> None:
     ctx.rule = ('a case = one command sequence on a fresh dict backend: every symbol from every '
                 'phase prefix and configuration, all length-2 (quick: core alphabet; thorough: '
-                'full alphabet, plus all length-3 over the core) sequences from the canonical '
+                'full alphabet, plus all length-3 over a 21-symbol core) sequences from the canonical '
                 'prefix of each phase, random sequences up to length 30 (60% legal in the '
                 'guessed state); non-trivial = at least one command not refused; distinct = by '
                 'configuration and symbol sequence')
@@ -824,7 +829,7 @@ def run(ctx) -> None:
                       [c['meth'] + ':' + c.get('out', '?') for c in s['calls']])
                      for s in res['steps']],
             'model': where[-1500:]})
-    erasure_check(ctx, ctx.scale(150, 2000))
+    erasure_check(ctx, ctx.scale(100, 2000))
 
 
 def replay(ctx, obj) -> int:
